@@ -31,10 +31,21 @@ pub async fn run_case(c: Case) -> Result<CaseInfo, Failure> {
     let mut cancelled_parked = false;
     let mut lifted_full = false;
     let mut batch_with_waiters = false;
+    let mut stream_paused = false;
     let mut trace: Vec<u8> = Vec::new();
     for op in &c.ops {
         if w.ended() {
             break;
+        }
+        // the first send() of a stream carries its readiness signal: cancelling it makes the stream unusable (not judged here)
+        if let Op::DropFut(k) = op {
+            if w.live_idx(*k).is_some_and(|i| w.slots[i].chunk_of.is_some()) {
+                continue;
+            }
+        }
+        // at most one streamed publish per history (a second one is refused while the first owes payload)
+        if matches!(op, Op::StreamStart { .. }) && !w.streams.is_empty() {
+            continue;
         }
         if c.role.is_server() && matches!(op, Op::Send { kind: SendKind::Subscribe | SendKind::Unsubscribe, .. } | Op::Create { kind: SendKind::Subscribe | SendKind::Unsubscribe, .. }) {
             continue;
@@ -53,9 +64,14 @@ pub async fn run_case(c: Case) -> Result<CaseInfo, Failure> {
             Op::DropFut(_) => 4,
             Op::Ack { batch, .. } => 5 + u8::from(*batch),
             Op::Window(o) => 7 + u8::from(*o),
+            Op::StreamStart { qos, .. } => 10 + qos % 2,
+            Op::Chunk { .. } => 12,
             _ => 0,
         });
         w.apply(*op).await.map_err(|f| fail(&c, &f.rule, f.detail))?;
+        if w.stalled && w.slots.iter().any(|s| s.chunk_of.is_some() && s.fut.is_some()) {
+            stream_paused = true;
+        }
     }
     if w.ended() {
         // a connection that ended is C07's subject; C13 only speaks about live connections
@@ -64,6 +80,8 @@ pub async fn run_case(c: Case) -> Result<CaseInfo, Failure> {
     }
     // ---- final phase: lift the stall, acknowledge everything, poll the survivors, until nothing changes
     w.apply(Op::Window(true)).await.map_err(|f| fail(&c, &f.rule, f.detail))?;
+    w.poll_all();
+    w.finish_streams().await.map_err(|f| fail(&c, &f.rule, f.detail))?;
     // QoS 2 receipts still held by the application are released so that their exchanges can complete
     while w.receipts.iter().any(|r| r.2) {
         w.apply(Op::Release(0)).await.map_err(|f| fail(&c, &f.rule, f.detail))?;
@@ -78,6 +96,7 @@ pub async fn run_case(c: Case) -> Result<CaseInfo, Failure> {
             w.apply(Op::Ack { n: pending, batch: rounds % 2 == 0 }).await.map_err(|f| fail(&c, &f.rule, f.detail))?;
         }
         w.poll_all();
+        w.finish_streams().await.map_err(|f| fail(&c, &f.rule, f.detail))?;
         w.apply(Op::Settle).await.map_err(|f| fail(&c, &f.rule, f.detail))?;
         while w.receipts.iter().any(|r| r.2) {
             w.apply(Op::Release(0)).await.map_err(|f| fail(&c, &f.rule, f.detail))?;
@@ -100,6 +119,15 @@ pub async fn run_case(c: Case) -> Result<CaseInfo, Failure> {
         log.iter().rev().find_map(|e| if let Ev::WrBackpressure(b) = e { Some(*b) } else { None }).unwrap_or(false)
     };
     let stuck: Vec<usize> = w.slots.iter().enumerate().filter(|(_, s)| s.fut.is_some()).map(|(i, _)| i).collect();
+    // a chunk may wait only for back-pressure once the PUBLISH header of its stream is on the wire
+    let header_out = matches!(w.eut.packets().1, crate::bed::v5::WireTail::Incomplete(_));
+    if let Some(i) = stuck.iter().find(|i| w.slots[**i].chunk_of.is_some()).filter(|_| !backpressure && header_out) {
+        return Err(Failure::new(
+            "stream-stuck",
+            format!("C13/{}/stream-stuck", c.role.name()),
+            format!("at quiescence the payload chunk future #{i} of a streamed publish is still pending although back-pressure is off ({outstanding} of {} slots in use); futures {:?}; streams {:?}", w.limit, w.results_summary(), w.streams.iter().map(|s| (s.declared, s.accepted.len())).collect::<Vec<_>>()),
+        ));
+    }
     if !stuck.is_empty() && outstanding < w.limit && !backpressure {
         let woke_dropped = w.slots.iter().any(|s| s.dropped);
         return Err(Failure::new(
@@ -114,10 +142,14 @@ pub async fn run_case(c: Case) -> Result<CaseInfo, Failure> {
         ));
     }
     for (i, s) in w.slots.iter().enumerate() {
-        if s.dropped {
+        // payload chunk futures fail legitimately (stream future cancelled, chunk after the end): not the subject here
+        if s.dropped || s.chunk_of.is_some() {
             continue;
         }
         match &s.result {
+            Some(SendRes::Err(crate::bed::v5::SendErr::StreamingCancelled)) if s.stream_of.is_some() => {}
+            // refused because a streamed publish owed payload at that moment: legitimate
+            Some(SendRes::Err(crate::bed::v5::SendErr::Encode(e))) if e.contains("ExpectPayload") => {}
             Some(SendRes::Err(e)) => {
                 return Err(fail(&c, "send-failed", format!("future #{i} ({:?}) failed with {e:?} although the peer acknowledged everything", s.kind)));
             }
@@ -126,7 +158,7 @@ pub async fn run_case(c: Case) -> Result<CaseInfo, Failure> {
         }
     }
     w.eut.finish().await;
-    let nt = cancelled_parked || lifted_full || batch_with_waiters;
+    let nt = cancelled_parked || lifted_full || batch_with_waiters || stream_paused;
     let mut info = if nt { CaseInfo::nontrivial(&(c.role, c.limit, &trace)) } else { CaseInfo::trivial() };
     if cancelled_parked {
         info.labels.push("cancelled-parked-waiter");
@@ -136,6 +168,12 @@ pub async fn run_case(c: Case) -> Result<CaseInfo, Failure> {
     }
     if batch_with_waiters {
         info.labels.push("ack-batch-with-waiters");
+    }
+    if stream_paused {
+        info.labels.push("stream-paused-by-backpressure");
+    }
+    if w.streams.iter().any(|s| s.declared > 0 && s.accepted.len() as u32 == s.declared) {
+        info.labels.push("stream-completed");
     }
     info.labels.push(c.role.name());
     Ok(info)
@@ -152,6 +190,9 @@ fn op_strategy() -> BoxedStrategy<Op> {
         1 => (0u8..4).prop_map(Op::Yield),
         1 => Just(Op::Settle),
         1 => any::<u8>().prop_map(Op::Release),
+        2 => Just(Op::Send { kind: SendKind::Qos0, again: false, own_id: 0 }),
+        1 => (0u8..2).prop_map(|qos| Op::StreamStart { qos, declared: 200, bad: 0 }),
+        3 => prop::sample::select(vec![1u8, 2, 2, 3, 5]).prop_map(|len| Op::Chunk { stream: 0, len }),
     ]
     .boxed()
 }
@@ -173,10 +214,10 @@ pub fn run(ctx: &Ctx, started: Instant) -> i32 {
     });
     let report = Report {
         level: "exploration",
-        rule: "histories of 3..25 ops for send limits 1..3: create(+poll) sink futures (QoS1, QoS2, subscribe, unsubscribe, ready(); some 'send again on completion'), poll in any order, drop arbitrary owned futures (parked, woken-but-unpolled), \
+        rule: "histories of 3..25 ops for send limits 1..3: create(+poll) sink futures (QoS1, QoS2, subscribe, unsubscribe, ready(); some 'send again on completion'), QoS 0 sends (build back-pressure without taking a slot), at most one streamed publish of 200 bytes (QoS 0/1) with chunks of 1/3/half/all owed bytes, poll in any order, drop arbitrary owned futures (parked, woken-but-unpolled), \
                correct peer acknowledgements singly or batched, peer window stall/release at any step (64-byte write watermark). Final phase: lift the stall, release held QoS 2 receipts, acknowledge everything on the wire, poll every survivor, repeat until \
-               nothing changes. Oracle: at that quiescence no surviving future is pending while fewer than `limit` packets are outstanding and back-pressure is off; no surviving future failed; the connection is alive. \
-               Non-trivial = a parked waiter was cancelled, back-pressure was lifted on a full window, or an ack batch >1 arrived with waiters parked; distinct = (role, limit, op-kind trace)"
+               nothing changes. Final phase also supplies every owed payload byte. Oracle: at that quiescence no surviving future is pending while fewer than `limit` packets are outstanding and back-pressure is off; no payload chunk future is pending while back-pressure is off and its PUBLISH header is out; no surviving future failed; the connection is alive. \
+               Non-trivial = a parked waiter was cancelled, back-pressure was lifted on a full window, an ack batch >1 arrived with waiters parked, or a payload chunk was paused by back-pressure; distinct = (role, limit, op-kind trace)"
             .into(),
         exhaustive: false,
         assumptions: vec!["liveness is decidable here because the harness owns transport and schedule: at quiescence nothing else can wake a parked future".into()],
